@@ -2,6 +2,9 @@
 """tools/seed_table.py: the table of seeded changes for DESIGN.md section 0.5, from seeded/*/meta.json."""
 import json, os, re
 NOTES = {
+ 'C10-7': 'caught by disagreement only -> per-receiver order oracle; the three-in-a-row fan-in program explored with two preemptions',
+ 'C11-8': 'caught by disagreement only -> oracle: a sub-port that closed itself during a poll holds nothing back from the MultiPort',
+ 'C19-7': 'caught by disagreement only -> oracle: two-digit hex separated by any str.isspace() character must be read',
  'C12-7': 'missed -> a third of the cases hold only frozen messages, a third every other one',
  'C12-8': 'missed -> the times of one merge result are edited and the same tracks merged again (results independent of each other and of the inputs)',
  'C13-7': 'missed -> two iterations of one file and reads of length interleaved; play() with a consumer that reads length between messages',
@@ -62,8 +65,12 @@ for s in sorted(os.listdir('/verif/seeded'), key=lambda x: (x.split('-')[0], int
     summ = re.sub(r'\s+', ' ', m['summary']).strip()
     summ = summ if len(summ) < 150 else summ[:147] + '...'
     r = m.get('rechecked') or m.get('confirmed')
-    tail = ' '.join(r.get('check_output_tail', []))
-    now = 'caught' if r.get('check_exit') == 1 else ('passes (harmless for this property at HEAD; see first column)' if m.get('status_at_current_head') else 'NOT CAUGHT')
+    if 'checks' in r:                      # written by tools/par_recheck.py: {property: {exit, tail}}
+        c = list(r['checks'].values())[0] if r['checks'] and 'apply' not in r['checks'] else {'exit': -1, 'tail': []}
+        ex, tail = c['exit'], ' '.join(c['tail'])
+    else:
+        ex, tail = r.get('check_exit'), ' '.join(r.get('check_output_tail', []))
+    now = 'caught' if ex == 1 else ('passes (harmless for this property at HEAD; see first column)' if m.get('status_at_current_head') else 'NOT CAUGHT')
     if 'no-failing-input-found' in tail:
         now += ' (no-failing-input-found)'
     first = NOTES.get(s) or ('caught' if m.get('confirmed', {}).get('check_exit') == 1 else 'missed')
